@@ -182,9 +182,18 @@ def literal_sentences(ctx):
     import parso
     for v in streams.versions():
         g = parso.load_grammar(version=v)
-        for kind, lits in (('number', gens.NUMBERS), ('string', gens.STRINGS)):
+        # strings continued over physical lines, under every line-break convention (the sentence then uses that convention throughout)
+        cont = []
+        for nl in ('\n', '\r\n', '\r'):
+            for pfx in ('', 'b', 'r', 'Rb', 'u'):
+                for q in ("'", '"'):
+                    cont.append(pfx + q + 'abc\\' + nl + 'def' + q)
+                    cont.append(pfx + q + '\\' + nl + q)
+                    cont.append(pfx + q * 3 + 'a' + nl + 'b\\' + nl + 'c' + q * 3)
+        for kind, lits in (('number', gens.NUMBERS), ('string', gens.STRINGS + cont)):
             for lit in lits:
-                for code, start in (('x = %s\n' % lit, 'file_input'), (lit, 'eval_input')):
+                nl_ = '\r\n' if '\r\n' in lit else '\r' if '\r' in lit else '\n'
+                for code, start in (('x = %s%s' % (lit, nl_), 'file_input'), (lit, 'eval_input')):
                     ctx.count('c06-literals')
                     sig = None
                     try:
